@@ -599,6 +599,22 @@ func c06Config(r *mon.Run, cfg c06cfg, jr *rand.Rand, idx int) {
 		lst2, _ := refimpl.ProveList([]refimpl.Prover{up2}, h.run.Context, h.run.Nonce1, false)
 		issuerCheck("v_prime_response too-large-by-construction", lst2[0].(*gabi.ProofU), h.run.Context, h.run.Nonce1)
 	}
+	// forged commitment without knowledge of any secret: U is not a group element (0, a multiple of N or of a prime
+	// factor), so that a verifier which lets U^-c collapse would reconstruct a predictable commitment; the challenge is
+	// computed up front for the guessed value and all responses are free
+	for _, du := range []struct {
+		name string
+		u    *big.Int
+	}{{"0", bi(0)}, {"N", cp(pk.N)}, {"2N", mul(pk.N, bi(2))}, {"-N", new(big.Int).Neg(pk.N)}, {"p", cp(h.key.SK.P)}} {
+		for _, gz := range []struct {
+			name string
+			z    *big.Int
+		}{{"0", bi(0)}, {"1", bi(1)}} {
+			f := &gabi.ProofU{U: cp(du.u), VPrimeResponse: randBig(jr, int(pk.Params.LvPrimeCommit)), SResponse: randBig(jr, int(pk.Params.LmCommit)), MUserResponses: map[int]*big.Int{}}
+			f.C = refimpl.Challenge(h.run.Context, h.run.Nonce1, []*big.Int{f.U, gz.z}, false)
+			issuerCheck(fmt.Sprintf("forged U=%s challenge-for-commitment-%s", du.name, gz.name), f, h.run.Context, h.run.Nonce1)
+		}
+	}
 	issuerCheck("nonce1 +1", pu, h.run.Context, add(h.run.Nonce1, bigOne))
 	issuerCheck("nonce1 :=nonce2", pu, h.run.Context, h.run.Nonce2)
 	issuerCheck("nonce1 other-run", pu, h.run.Context, other.run.Nonce1)
